@@ -222,7 +222,8 @@ class Builder:
             if op == '_bioLogLogitFullChoiceSet':
                 return _bioLogLogitFullChoiceSet({key: k[1 + j] for j, key in enumerate(n['keys'])}, k[0])
             util = {key: k[1 + 2 * j] for j, key in enumerate(n['keys'])}
-            av = {key: k[2 + 2 * j] for j, key in enumerate(n['keys'])}
+            # the availability dictionary is written in the REVERSE key order: the pairing is by alternative id
+            av = {key: k[2 + 2 * j] for j, key in reversed(list(enumerate(n['keys'])))}
             return _bioLogLogit(util, av, k[0])
         raise KeyError(op)
 
